@@ -172,3 +172,22 @@ def correspondence(ctx, model, sc, res, stats, name="model_spfin.txt"):
         if a != impl:
             bad.append((h, pos, "corr:Store.StackDefs.sp_finalize history=%s step=%s %s" % (h, pos, _diff(a, impl))))
     return bad
+
+
+def gen_boundary(rng, cfg, nsteps):
+    """Directed history for the bound of VbkBlockTree::finalizeBlocks (maxFinalizeBlockHeight = lowest VBK height
+    referenced by the BTC tip): VTBs are delivered in the first three blocks only, afterwards every ALT block carries
+    exactly ONE ATV, so the VBK tip - and with it the requested block `tip - maxReorg` - advances by exactly one
+    height per step while the BTC tip (and its refs) stays put.  With a finalization compared after every step the
+    requested height passes min(refs) - 1, min(refs), min(refs) + 1 one after the other."""
+    g = S.StoreWorldGen(rng, cfg)
+    h = S.TwinHistory(g, cfg.get("alt_maxreorg", 8))
+    for i in range(nsteps):
+        if i < 3:
+            a = g.honest_block(h.best, n_atv=1, n_vtb=1, empty_chance=(0, 1))
+        else:
+            a = g.honest_block(h.best, n_atv=1, n_vtb=0, empty_chance=(0, 1))
+        h.show(a, order="inorder")
+        h.on("set", a)
+        h.best = a
+    return g, h.rec
